@@ -143,4 +143,10 @@ PROPS = {
                 trusted=['tools/genx_reblock.py (fail-closed extraction of the asserts, header patches, loop bounds, i_count/x_count, seek offsets, slices, footer writes of convert_to_adv_sgz)',
                          'hand model coq/Model/Reblock.v: bytearray slice assignment as a length-changing splice, file reads short at end of file, struct.pack ranges'],
                 assumptions=['decoded floats abstract (unit-locality)', 'a fresh converter object (no earlier header reads on it: C15)', 'numpy frombuffer/tobytes byte round trip of footer arrays checked by the harness only']),
+    'C04': dict(gen_targets=['Headers'], pins=pins_of('C04'), harness='headers.py',
+                trusted=['tools/genx_headers.py (template-matching, fail-closed extraction of the classification rules, table codec, detection modes, thorough patches, footer padding, NumPy header handling, header capture arithmetic, reader stride / offsets / mask conditions)',
+                         'hand model coq/Model/Headers.v: dicts as association lists, footer as a list of write() segments, capture loops (last write wins)'],
+                assumptions=['segyio own header parsing and the little-endian byte encoding of 32-bit words are observed by the oracle only',
+                             'heuristic detection with true / false duplicates: model and correspondence, no theorem; the equal-at-both-ends limitation is the documented one (C04_heuristic_refuted)',
+                             'data section length from C03; windowed conversion is C11']),
 }
